@@ -308,6 +308,14 @@ def run_impl(sc, spec, env=None, timeout=60, crash=None, yield_seed=None, binary
             if len(t) >= 3:
                 res["hooks"].append((int(t[0]), t[1], int(t[2]), t[3:]))
     res["fs"] = snapshot_dir(sc.work)
+    # what lies beside the working directory (parent-relative and absolute outputs), keyed relative to work/
+    outside = {}
+    for k, v in snapshot_dir(sc.root).items():
+        top = k.split("/")[0]
+        if top in ("work", "SPEC", "trace", "hooks.log", "rdv"):
+            continue
+        outside["../" + k] = v
+    res["fs_outside"] = outside
     return res
 
 
